@@ -37,7 +37,21 @@ static Plan gen_c14(uint64_t seed, int64_t index, bool thorough)
     PlanOp op;
     std::string mode;
     uint64_t k = rng.below(100);
-    if (k < 20) { mode = "fault_free"; op = make_sentence_op(rng, key, sh); }
+    std::vector<std::string> xkeys;
+    for (const std::string& kk : pk) if (kk.size() > 6 && kk.compare(kk.size() - 6, 6, ".xnode") == 0) xkeys.push_back(kk);
+    if (!xkeys.empty() && rng.chance(1, 14))
+    {
+        // a value type whose move constructor may throw, on inputs of one to three terms: the stacks hold more entries than
+        // the input has characters (empty reductions, the error symbol), so a reservation derived from the input's length
+        // instead of the documented 1024 makes std::vector grow - and copy - at once (S63)
+        mode = "throwing_move_tiny_input";
+        key = rng.pick(xkeys);
+        m = model_for(grammar_of(key));
+        sh.budget = rng.range(1, 3); sh.buffers = { BUF_SIM, BUF_STRING, BUF_VIEW };
+        op = make_sentence_op(rng, key, sh);
+        if (rng.chance(1, 2)) add_token_faults(op, rng, 1, *m);
+    }
+    else if (k < 20) { mode = "fault_free"; op = make_sentence_op(rng, key, sh); }
     else if (k < 55)
     {
         mode = "input_faults";
